@@ -419,7 +419,15 @@ func init() {
 			return
 		}
 		for i, n := 0, len(p.elems(s, "rand buffer")); i < n; i++ {
-			p.elems(s, "rand buffer")[i] = p.freshVar("rand", 8)
+			v := p.freshVar("rand", 8)
+			if p.randSmall {
+				// stated reduction: random bytes restricted to {0,1} (keeps derived lengths small)
+				p.assertPC(p.tt.Cmp(OpUlt, v, p.tt.Const(8, 2)))
+			}
+			if p.randZero {
+				v = p.tt.Const(8, 0)
+			}
+			p.elems(s, "rand buffer")[i] = v
 		}
 	}
 	I["crypto/rand.Read"] = func(p *Path, c *frame, fn *ssa.Function, a []value) value {
@@ -440,6 +448,9 @@ func init() {
 		n := a[0].(*Term)
 		if !p.branch(p.tt.Cmp(OpSlt, p.i64(0), n)) {
 			panic(targetPanic{iface{v: &runtimeErr{"crypto/rand: argument to Int is <= 0"}}})
+		}
+		if p.randZero {
+			return p.i64(0)
 		}
 		r := p.freshVar("randint", 64)
 		p.assertPC(p.tt.BAnd(p.tt.Cmp(OpSle, p.i64(0), r), p.tt.Cmp(OpSlt, r, n)))
